@@ -171,6 +171,40 @@ def validate_shard(args):
     return res
 
 
+def gen_behaviours(module, out_path, num, depth, seed, per_prefix=4):
+    """L2: TLC simulates the scaled machine and prints one JSON line per behaviour (history variable)."""
+    cmd = ["java", "-XX:+UseParallelGC", "-Xmx2g", "-cp", TLC_CP, "tlc2.TLC", "-workers", "1",
+           "-simulate", "num=%d" % num, "-depth", str(depth + 1), "-seed", str(seed),
+           "-metadir", os.path.join(WORK, "meta_gen_%d" % os.getpid()), "-cleanup", "-noGenerateSpecTE",
+           "-config", module + ".cfg", module + ".tla"]
+    try:
+        rc, out = run(cmd, cwd=SPEC, timeout=1800)
+    finally:
+        shutil.rmtree(os.path.join(WORK, "meta_gen_%d" % os.getpid()), ignore_errors=True)
+    lines = []
+    for m in re.finditer(r'<<"BEHAVIOUR", "(.*)">>', out):
+        lines.append(m.group(1).replace('\\"', '"'))
+    if not lines:
+        sys.stderr.write(out[-2000:])
+        raise ToolError("L2 generation: TLC printed no behaviour from %s" % module)
+    # TLC evaluates the invariant on every candidate successor, so each simulated trace contributes all
+    # the siblings of its last step: keep a few per prefix (deterministic for a given seed)
+    import random
+    rnd = random.Random(seed)
+    groups = {}
+    for ln in sorted(set(lines)):
+        groups.setdefault(ln.rsplit(',{"op"', 1)[0], []).append(ln)
+    lines = []
+    for k in sorted(groups):
+        g = groups[k]
+        rnd.shuffle(g)
+        lines.extend(g[:per_prefix])
+    os.makedirs(os.path.dirname(out_path), exist_ok=True)
+    with open(out_path, "w") as f:
+        f.write("\n".join(lines) + "\n")
+    return len(lines)
+
+
 def load_known():
     if not os.path.exists(KNOWN):
         return {"findings": []}
